@@ -716,7 +716,7 @@ Section Enough.
     destruct (rec esc alias fv) as [r| | |] eqn:E; cbn; try (split; [discriminate|intros; discriminate]);
       [|contradiction].
     destruct (is_dead r) eqn:Edead.
-    - destruct (delete_elem vk vv des) as [des'| | |] eqn:Ed; cbn;
+    - destruct (delete_elem ek ev des) as [des'| | |] eqn:Ed; cbn;
         try (split; [discriminate|intros; discriminate]).
       + split; [discriminate|]. intros st' Es; inv Es. cbn.
         split; [eapply delete_elem_le; [exact Hdes|exact Ed]|exact Hit].
